@@ -148,10 +148,10 @@ def gen_check(spec, mod, seed, tier="quick"):
     f_try = spec.item_name("try_from")
     dom = None
     if f_try or "TryFrom" in cfg:
-        if bits <= 16:
+        if bits <= 16 and tier != "miri":
             dom = "%s::MIN..=%s::MAX" % (r, r)
         else:
-            cs = candidates(spec, rng, 200 if tier == "quick" else 2000)
+            cs = candidates(spec, rng, {"quick": 200, "miri": 10}.get(tier, 2000))
             w("        static CANDS: &[%s] = &[%s];" % (r, ", ".join(lit(r, x) for x in cs)))
             dom = "CANDS.iter().copied()"
     if f_try:
@@ -205,6 +205,8 @@ def gen_check(spec, mod, seed, tier="quick"):
     # ---- C06 / C07 / C08 -------------------------------------------------------------------
     depth = 6 if tier == "quick" else 9
     randoms = 60 if tier == "quick" else 600
+    if tier == "miri":
+        depth, randoms = 3, 3          # the interpreter is ~100x slower; every operation is still exercised
     if n > 400:
         # very large enums: every operation is still exercised, but with few, short histories
         depth, randoms = (3, 6) if n <= 5000 else (2, 2)
@@ -220,7 +222,10 @@ def gen_check(spec, mod, seed, tier="quick"):
             w("        out.guard(\"C07\", \"range\", |out| { for a in 0..all.len() { for b in 0..all.len() {")
             w("            let want: Vec<i128> = if a <= b { all[a..=b].to_vec() } else { Vec::new() };")
             w("            let what = format!(\"range({},{})\", ORACLE[a].3, ORACLE[b].3);")
-            w("            check_iterator(\"C07\", &what, &|| %s::%s(ORACLE[a].1, ORACLE[b].1), &disc, &want, seed ^ ((a * 131 + b) as u64), 4, 6, out);" % (En, f_range))
+            if tier == "miri":
+                w("            check_iterator_light(\"C07\", &what, &|| %s::%s(ORACLE[a].1, ORACLE[b].1), &disc, &want, out);" % (En, f_range))
+            else:
+                w("            check_iterator(\"C07\", &what, &|| %s::%s(ORACLE[a].1, ORACLE[b].1), &disc, &want, seed ^ ((a * 131 + b) as u64), 4, 6, out);" % (En, f_range))
             w("        } } });")
         else:
             pairs = set()
